@@ -26,6 +26,11 @@ const (
 	chanRecvsHeap  = "HC!chan.recvs" // receives completed by the thread under verification
 )
 
+// lastRecvHeap: ghost map channel -> the value most recently received from it by the thread under verification
+func (g *VCGen) lastRecvHeap(elemSort string) string {
+	return g.so.heap("HC!last!"+smtSym(elemSort), "(Array Int "+elemSort+")")
+}
+
 func (g *VCGen) chanHeaps() {
 	g.so.heap(chanCapHeap, "(Array Int Int)")
 	g.so.heap(chanSendsHeap, "(Array Int Int)")
@@ -41,6 +46,41 @@ func (concurrencyModel) goInstr(g *VCGen, x *ssa.Go) {
 	for _, a := range x.Call.Args {
 		if _, isAddr := g.addrs[a]; !isAddr {
 			g.val(a)
+		}
+	}
+	// the spawned function starts in the current state: its preconditions are obligations of the go statement
+	c := &x.Call
+	if callee := c.StaticCallee(); callee != nil {
+		if fc := g.eng.contractFor(callee); fc != nil {
+			args := g.argVals(c)
+			names := sigParamNames(callee.Signature)
+			if len(callee.Params) == len(args) {
+				for i, p := range callee.Params {
+					names[i] = recvName(callee, i, p)
+				}
+			}
+			if mc, ok := c.Value.(*ssa.MakeClosure); ok {
+				for i, b := range mc.Bindings {
+					names = append(names, callee.FreeVars[i].Name())
+					if _, isAddr := g.addrs[b]; isAddr {
+						args = append(args, g.escapeAddr(b))
+					} else {
+						args = append(args, g.val(b))
+					}
+				}
+			}
+			env := &SpecEnv{g: g, vars: map[string]SpecVal{}, cur: g.cur, old: g.cur, pkg: g.eng.typesPkg(fc.Pkg)}
+			for i, n := range names {
+				if i < len(args) {
+					env.vars[n] = args[i]
+				}
+			}
+			for k, rc := range fc.Requires {
+				g.oblige(fmt.Sprintf("go@%s.requires.%d", callee.Name(), k), "requires", g.trGoal(env, rc), rc.Text, x.Pos())
+			}
+			g.usedCallees[callee.String()] = true
+		} else {
+			g.warnings = append(g.warnings, "go statement spawns "+callee.String()+" which has no contract")
 		}
 	}
 	g.usedTrusted["go statements: the spawned goroutine is verified separately under the thread-modular rules"] = true
@@ -59,7 +99,16 @@ func (concurrencyModel) makeChan(g *VCGen, x *ssa.MakeChan) {
 
 func (cm concurrencyModel) send(g *VCGen, x *ssa.Send) {
 	ch := g.val(x.Chan)
-	g.val(x.X)
+	sent := g.val(x.X)
+	// "before send: E" — E may name the value being sent as 'sent' and the channel as 'sentto'
+	g.beforeNamed("send", x.Pos(), x, map[string]SpecVal{"sent": sent, "sentto": ch})
+	if inv, text, ok := g.chanInvFor(x.Chan, sent); ok {
+		g.oblige("chaninv.send@"+x.Chan.Name(), "requires", inv, "message invariant of the channel: "+text, x.Pos())
+	}
+	if key := chanFieldKey(x.Chan); key != "" {
+		// "before send.<field>: E" — only the sends on the channel stored in that field
+		g.beforeNamed("send."+key[strings.LastIndex(key, ".")+1:], x.Pos(), x, map[string]SpecVal{"sent": sent, "sentto": ch})
+	}
 	cm.sendEffect(g, ch.T, x.Chan.Name(), x.Pos(), "true")
 }
 
@@ -97,9 +146,21 @@ func (concurrencyModel) recv(g *VCGen, x *ssa.UnOp) {
 		g.rangeFact(sv)
 		g.assumeHere(g.allocFact(v, et, g.cur))
 		g.tuples[x] = []SpecVal{sv, {ok, "Bool", types.Typ[types.Bool]}}
+		lh := g.lastRecvHeap(s)
+		g.setHeap(g.cur, lh, fmt.Sprintf("(store %s %s %s)", g.heapTerm(g.cur, lh), ch.T, v))
+		if inv, text, ok2 := g.chanInvFor(x.X, sv); ok2 {
+			g.assumeHere(implies(ok, inv))
+			g.usedTrusted["chaninv assumed at receive: "+text] = true
+		}
 	} else {
 		sv := g.havocVal(x)
 		g.assumeHere(g.allocFact(sv.T, x.Type(), g.cur))
+		lh := g.lastRecvHeap(sv.Sort)
+		g.setHeap(g.cur, lh, fmt.Sprintf("(store %s %s %s)", g.heapTerm(g.cur, lh), ch.T, sv.T))
+		if inv, text, ok2 := g.chanInvFor(x.X, sv); ok2 {
+			g.assumeHere(inv)
+			g.usedTrusted["chaninv assumed at receive: "+text] = true
+		}
 	}
 	g.pathCond = and(g.pathCond, fmt.Sprintf("(not (= %s 0))", ch.T))
 	g.chanHeaps()
@@ -116,6 +177,37 @@ func (concurrencyModel) recv(g *VCGen, x *ssa.UnOp) {
 		}
 		g.assumeHere(fmt.Sprintf("(select %s %s)", g.heapTerm(g.cur, chanClosedHeap), ch.T))
 	}
+}
+
+// chanOwner: the object whose field holds the channel v (v is a load of a field address)
+func (g *VCGen) chanOwner(v ssa.Value) (SpecVal, bool) {
+	u, ok := v.(*ssa.UnOp)
+	if !ok {
+		return SpecVal{}, false
+	}
+	fa, ok := u.X.(*ssa.FieldAddr)
+	if !ok {
+		return SpecVal{}, false
+	}
+	return g.val(fa.X), true
+}
+
+// chanInvFor: the declared message invariant of the channel value v, instantiated for message elem
+func (g *VCGen) chanInvFor(v ssa.Value, elem SpecVal) (string, string, bool) {
+	key := chanFieldKey(v)
+	if key == "" {
+		return "", "", false
+	}
+	ci, ok := g.eng.contracts.ChanInvs[key]
+	if !ok {
+		return "", "", false
+	}
+	self, ok := g.chanOwner(v)
+	if !ok {
+		return "", "", false
+	}
+	env := &SpecEnv{g: g, vars: map[string]SpecVal{"elem": elem, "self": self}, cur: g.cur, old: g.cur, pkg: g.eng.typesPkg(ci.Pkg)}
+	return g.trClause(env, ci.C), ci.C.Text, true
 }
 
 // chanFieldKey: "pkgpath.Type.field" if v is a load of a struct field
@@ -205,8 +297,18 @@ func (cm concurrencyModel) selectI(g *VCGen, x *ssa.Select) {
 			g.assumeHere(fmt.Sprintf("(=> %s (or (select %s %s) (> (select %s %s) 0)))", chosen, g.heapTerm(g.cur, chanClosedHeap), ch.T, g.heapTerm(g.cur, chanSendsHeap), ch.T))
 			rh := g.heapTerm(g.cur, chanRecvsHeap)
 			g.setHeap(g.cur, chanRecvsHeap, fmt.Sprintf("(ite %s (store %s %s (+ (select %s %s) 1)) %s)", chosen, rh, ch.T, rh, ch.T, rh))
+			lh := g.lastRecvHeap(s)
+			lt := g.heapTerm(g.cur, lh)
+			g.setHeap(g.cur, lh, fmt.Sprintf("(ite %s (store %s %s %s) %s)", chosen, lt, ch.T, v, lt))
+			if inv, text, ok2 := g.chanInvFor(st.Chan, sv); ok2 {
+				g.assumeHere(implies(chosen, inv))
+				g.usedTrusted["chaninv assumed at receive: "+text] = true
+			}
 		} else {
-			g.val(st.Send)
+			sent := g.val(st.Send)
+			if inv, text, ok2 := g.chanInvFor(st.Chan, sent); ok2 {
+				g.oblige("chaninv.send@"+st.Chan.Name(), "requires", implies(chosen, inv), "message invariant of the channel: "+text, x.Pos())
+			}
 			cm.sendEffect(g, ch.T, st.Chan.Name(), x.Pos(), chosen)
 		}
 	}
